@@ -341,6 +341,7 @@ def run_check(mod, tier: str, seed: int, args) -> int:
     groups: dict[str, list[tuple[dict, dict, dict]]] = {}
     harness_errors: list[str] = []
     inconclusive: list = []
+    watchdogs: list = []
     try:
         if hasattr(mod, "run_batch"):
             # properties whose unit of work is not a single run (e.g. C13 pairs)
@@ -350,7 +351,12 @@ def run_check(mod, tier: str, seed: int, args) -> int:
 
             def on_result(task: dict, res: dict) -> None:
                 status_counts[res.get("status", "?")] += 1
-                if res.get("status") in ("harness_error", "watchdog"):
+                if res.get("status") == "watchdog":
+                    # a single child that exceeds its wall-clock watchdog is inconclusive like a step-cap overrun;
+                    # it becomes a harness error only when such runs are more than 1 % of the batch (see below)
+                    watchdogs.append(task["task_id"])
+                    return
+                if res.get("status") == "harness_error":
                     harness_errors.append(f"run {task['task_id']}: {res.get('status')}: {(res.get('error') or '')[-800:]}")
                     return
                 if res.get("status") == "cap":
@@ -398,6 +404,10 @@ def run_check(mod, tier: str, seed: int, args) -> int:
         write_evidence(mod, sess, tier, seed, results, status_counts, groups, known_hits, new_groups, wall, search_wall, harness_errors)
         if inconclusive:
             print(f"WARNING {len(inconclusive)} run(s) exceeded the step cap and were left out as inconclusive: {inconclusive[:8]}")
+        if watchdogs:
+            print(f"WARNING {len(watchdogs)} run(s) exceeded the per-run wall-clock watchdog and were left out as inconclusive: {watchdogs[:8]}")
+            if len(watchdogs) + len(inconclusive) > max(2, 0.01 * sum(status_counts.values())):
+                harness_errors.append(f"{len(watchdogs)} watchdog kills and {len(inconclusive)} step-cap overruns: too many inconclusive runs")
         if harness_errors:
             for h in harness_errors[:10]:
                 print("HARNESS-ERROR:", h)
